@@ -61,6 +61,30 @@ def yields_only_empty(ctx, y):
         for e in somes:
             if not any(c.edge_dominates(te, e['point']) for (_bi, _c, te, _fe, _cs) in guards):
                 ok_all = False
+    # `.filter(|(_, q)| q.is_empty())` spelling: the iterator handed out is (derived from) a filter whose
+    # predicate is exactly MemQueue::is_empty of the item
+    fl = None
+    for cs in y.calls:
+        if not re.search(r'Iterator>::filter(::<.*>)?$', cs.name):
+            continue
+        pred_ok = False
+        for (p_, fj) in y.fn_values:
+            if not (y.pstart[cs.block] <= p_ <= cs.point):
+                continue
+            node = fj.get('node')
+            c = ctx.f.bodies.get(node) if node is not None else None
+            if c is None or c.ret_ty != 'bool':
+                continue
+            ex = c.exits()
+            if ex and all(e['kind'] == 'forward' and e.get('call') is not None and e['call'].path.endswith('MemQueue::is_empty') for e in ex):
+                pred_ok = True
+        if fl is None:
+            fl = flow_of(y)
+        returned = ('l', 0) in fl.forward(set(fl.call_result_nodes(cs)))
+        if returned:
+            n += 1
+            if not pred_ok:
+                ok_all = False
     return ok_all and n > 0, n
 
 
@@ -401,6 +425,31 @@ def name_builders(ctx):
     return out
 
 
+def built_paths(ctx, b, nb_ids=None):
+    """Path values of body b built by the WAL name builder: [(value nodes, backward slice of the file-number input)].
+    Either a call to a name-builder body, or Path::join(dir, <FileNumber>.filename()) written in place."""
+    if nb_ids is None:
+        nb_ids = {x.id for x in name_builders(ctx)}
+    fl = flow_of(b)
+    out = []
+    for c in b.calls:
+        if c.node in nb_ids:
+            back2 = set()
+            for a in c.args:
+                back2 |= fl.backward(set(fl.op_nodes(a)))
+            out.append((set(fl.call_result_nodes(c)), back2, c))
+        elif c.name.startswith('std::path::Path::join') and len(c.args) > 1:
+            back = fl.backward(set(fl.op_nodes(c.args[1])))
+            fns = [f for f in b.calls if f.path.endswith('FileNumber::filename') and any(nn in back for nn in fl.call_result_nodes(f))]
+            if fns:
+                back2 = set()
+                for f in fns:
+                    for a in f.args:
+                        back2 |= fl.backward(set(fl.op_nodes(a)))
+                out.append((set(fl.call_result_nodes(c)), back2, c))
+    return out
+
+
 @rule('GC5', ['C01', 'C02', 'C06', 'C17'], floor=1, template='provenance+pairing')
 def gc5(ctx):
     """What is unlinked is exactly the file that was just popped from the tracker."""
@@ -410,13 +459,10 @@ def gc5(ctx):
     for (b, u) in unlink_prim_sites(ctx):
         fl = flow_of(b)
         back = fl.backward(set(fl.op_nodes(u.args[0])))
-        builders = [c for c in b.calls if c.node in nb and any(nn in back for nn in fl.call_result_nodes(c))]
+        builders = [(vals, back2, c) for (vals, back2, c) in built_paths(ctx, b, nb) if vals & back]
         prov = False
         rem_calls = []
-        for c in builders:
-            back2 = set()
-            for a in c.args:
-                back2 |= fl.backward(set(fl.op_nodes(a)))
+        for (_vals, back2, c) in builders:
             for r in b.calls:
                 if r.node is not None and ctx.E.call_may(r, 'TRACK') and any(nn in back2 for nn in fl.call_result_nodes(r)):
                     prov = True
